@@ -2,7 +2,7 @@
 //!
 //! [Feature Variations]: https://learn.microsoft.com/en-us/typography/opentype/spec/chapter2#feature-variations
 
-use std::collections::{BTreeMap, HashMap};
+use std::collections::{BTreeMap, HashMap, HashSet};
 
 use fea_rs::compile::{FeatureBuilder, FeatureProvider, PendingLookup};
 use fontdrasil::types::GlyphName;
@@ -72,6 +72,14 @@ impl FeatureVariationsProvider {
                 let condition_set = cond_set.to_condition_set(static_metadata);
                 (condition_set, indices)
             })
+            .collect::<Vec<_>>();
+        // distinct boxes can produce equal condition sets (a condition spanning the
+        // axis' whole range is dropped); records are matched in order, so only the
+        // first of them can ever apply and it must not be replaced by a later one.
+        let mut seen = HashSet::new();
+        let conditions = conditions
+            .into_iter()
+            .filter(|(condition_set, _)| seen.insert(condition_set.clone()))
             .collect::<Vec<_>>();
 
         Ok(FeatureVariationsProvider {
